@@ -188,13 +188,21 @@ def exmod(
         and not path.isdir(sqlalchemy_mod_dir)
     )
     if make_sqlalchemy_mod:
-        extra_modules_to_all = _create_sqlalchemy_mod(
-            extra_modules_to_all,
-            output_directory,
-            sqlalchemy_mod,
-            sqlalchemy_mod_dir,
-            sqlalchemy_mod_dir_join,
-        )
+        if dry_run:
+            print(
+                "mkdir\t'{sqlalchemy_mod_dir}'".format(
+                    sqlalchemy_mod_dir=path.normcase(sqlalchemy_mod_dir)
+                ),
+                file=cdd.compound.exmod_utils.EXMOD_OUT_STREAM,
+            )
+        else:
+            extra_modules_to_all = _create_sqlalchemy_mod(
+                extra_modules_to_all,
+                output_directory,
+                sqlalchemy_mod,
+                sqlalchemy_mod_dir,
+                sqlalchemy_mod_dir_join,
+            )
     try:
         module_root_dir: str = path.dirname(
             find_module_filepath(
@@ -287,7 +295,7 @@ def exmod(
         )
     )
 
-    if make_sqlalchemy_mod:
+    if make_sqlalchemy_mod and not dry_run:
         _add_imports_to_sqlalchemy_create_all(imports, sqlalchemy_mod_dir_join)
 
     # This could be executed in parallel for efficiency
